@@ -1159,6 +1159,12 @@ pub mod forms {
     pub fn owned<R: Push<V>, V: Clone>(r: &mut R, v: &V) -> R::Index {
         r.push(v.clone())
     }
+    /// an owned vector whose capacity exceeds its length (capacity is not part of the value)
+    pub fn owned_spare<R: Push<Vec<T>>, T: Clone>(r: &mut R, v: &Vec<T>) -> R::Index {
+        let mut c = Vec::with_capacity(v.len() + 4096);
+        c.extend_from_slice(v);
+        r.push(c)
+    }
     pub fn by_ref<R: for<'a> Push<&'a V>, V>(r: &mut R, v: &V) -> R::Index {
         r.push(v)
     }
